@@ -204,76 +204,98 @@ def run(prog: Program, rep, tier: str) -> None:
 
 
 def matrix_entry_form(prog: Program, m: FuncInfo, cb: str):
-    """(ok, form, detail, node) for the per-entry rescaling of a sparse callback result."""
+    """(ok, form, detail, node) for the per-entry rescaling of a sparse callback result.  Role based: the returned matrix M is
+    tocoo() of the callback result; there is exactly one store into M.data - per entry (`data[k] = ldexp(<entry k>, E)` inside a
+    loop over all stored entries) or as a whole (`data[:] = ldexp(data, E)` / `M.data = ldexp(M.data, E)`); in E an index is a
+    ROW index if it denotes M.row at the same position (zip element, `rows[k]`, or the whole M.row in the vectorised form)."""
     ff = facts_for(m)
     rs = returns_of(m)
     if len(rs) != 1:
         return False, None, "several returns", None
     ret = ff.resolved(rs[0], rs[0].value)
-    # the returned matrix: <self.problem.cb(..)>.tocoo(..)
     mat_ok = isinstance(ret, ast.Call) and isinstance(ret.func, ast.Attribute) and ret.func.attr in ("tocoo",) and isinstance(ret.func.value, ast.Call) \
         and isinstance(ret.func.value.func, ast.Attribute) and ret.func.value.func.attr == cb and U(ret.func.value.func.value) == "self.problem"
     if not mat_ok:
         return False, None, f"returns `{U(ret)[:80]}`, not tocoo() of the callback result", rs[0]
     mt = U(ret)
-    # the rescaling loop / vectorised store
+
+    def full(sl):
+        return (isinstance(sl, ast.Slice) and sl.lower is None and sl.upper is None and sl.step is None) or (isinstance(sl, ast.Constant) and sl.value is Ellipsis)
+    cands = []
     for si in ff.order:
         st = si.stmt
-        if isinstance(st, ast.For):
-            tgt, itx = st.target, ff.resolved(st, st.iter)
-            roles: Dict[str, str] = {}
-            data_name = None
-            k_name = None
-            zipc = itx
-            if isinstance(zipc, ast.Call) and dotted(zipc.func) == "enumerate" and zipc.args:
-                zipc = zipc.args[0]
-                if isinstance(tgt, ast.Tuple) and len(tgt.elts) == 2 and isinstance(tgt.elts[0], ast.Name):
-                    k_name = tgt.elts[0].id
-                    tgt = tgt.elts[1]
-            if not (isinstance(zipc, ast.Call) and dotted(zipc.func) == "zip" and isinstance(tgt, ast.Tuple) and len(tgt.elts) == len(zipc.args)):
-                continue
-            data_elem = None
-            for el, src in zip(tgt.elts, zipc.args):
-                t = U(src)
+        if not (isinstance(st, ast.Assign) and len(st.targets) == 1):
+            continue
+        t = st.targets[0]
+        if isinstance(t, ast.Subscript) and U(ff.resolved(st, t.value)) == f"{mt}.data":
+            cands.append((si, "entry" if isinstance(t.slice, ast.Name) and si.loops else ("whole" if full(t.slice) else "other")))
+        elif isinstance(t, ast.Attribute) and t.attr == "data" and U(ff.resolved(st, t.value)) == mt:
+            cands.append((si, "whole"))
+    if len(cands) != 1:
+        return False, None, "no per-entry rescaling found" if not cands else f"{len(cands)} stores into the data of the returned matrix", None
+    si, kind = cands[0]
+    st = si.stmt
+    v = st.value
+    if not ((dotted(v.func) if isinstance(v, ast.Call) else "") in ("np.ldexp", "numpy.ldexp") and len(v.args) == 2 and not v.keywords):
+        return False, None, f"entry value `{U(v)[:60]}` is not ldexp(entry, exponent)", st
+    env = ff.at(st).env
+    E = ff.resolved(st, v.args[1])
+    a = U(ff.resolved(st, v.args[0]))
+    if kind == "whole":
+        if a != f"{mt}.data":
+            return False, None, f"`{a[:60]}` is not the data of the returned matrix", st
+        role_of = lambda idx: "row" if U(idx) == f"{mt}.row" else ("col" if U(idx) == f"{mt}.col" else None)
+        detail = "vectorised ldexp on the data array"
+    elif kind == "entry":
+        k = st.targets[0].slice.id
+        ktxt = U(env.get(k, ast.Name(id=k)))
+        roles_text = {f"{mt}.row[{ktxt}]": "row", f"{mt}.col[{ktxt}]": "col"}
+        entry_texts = {f"{mt}.data[{ktxt}]"}
+        lp = si.loops[-1]
+        if not isinstance(lp, ast.For):
+            return False, None, "the store is not inside a for loop over the entries", st
+        tgt, itx = lp.target, ff.resolved(lp, lp.iter)
+        idx_name = None
+        zipc = itx
+        if isinstance(zipc, ast.Call) and dotted(zipc.func) == "enumerate" and zipc.args and isinstance(tgt, ast.Tuple) and len(tgt.elts) == 2 and isinstance(tgt.elts[0], ast.Name):
+            idx_name, tgt, zipc = tgt.elts[0].id, tgt.elts[1], zipc.args[0]
+        if isinstance(zipc, ast.Call) and dotted(zipc.func) == "zip":
+            els = tgt.elts if isinstance(tgt, ast.Tuple) else [tgt]
+            if len(els) != len(zipc.args):
+                return False, None, "loop target does not match the zipped sequences", lp
+            for el, src in zip(els, zipc.args):
                 if not isinstance(el, ast.Name):
                     continue
-                if t == f"{mt}.row":
-                    roles[el.id] = "row"
-                elif t == f"{mt}.col":
-                    roles[el.id] = "col"
-                elif t == f"{mt}.data":
-                    data_elem = el.id
-            if set(roles.values()) != {"row", "col"} or data_elem is None:
-                continue
-            stores = [b for b in st.body if isinstance(b, ast.Assign) and isinstance(b.targets[0], ast.Subscript)]
-            others = [b for b in st.body if b not in stores]
-            if len(stores) != 1 or not all(isinstance(b, ast.Assign) and all(isinstance(t, ast.Name) for t in b.targets) for b in others):
-                return False, None, "loop body is not local assignments plus a single store", st
-            s0 = stores[0]
-            t0 = s0.targets[0]
-            if not (isinstance(t0, ast.Subscript) and U(ff.resolved(s0, t0.value)) == f"{mt}.data" and isinstance(t0.slice, ast.Name) and t0.slice.id == k_name):
-                return False, None, "the store does not target data[k] of the returned matrix", s0
-            v = s0.value
-            if not ((dotted(v.func) if isinstance(v, ast.Call) else "") in ("np.ldexp", "numpy.ldexp") and len(v.args) == 2 and isinstance(v.args[0], ast.Name) and v.args[0].id == data_elem):
-                return False, None, f"entry value `{U(v)[:60]}` is not ldexp(entry, exponent)", s0
-            env0 = ff.at(s0).env
-            by_text = {U(env0[nm]): r for nm, r in roles.items() if nm in env0}
-            role_of = lambda idx: roles.get(idx.id) if isinstance(idx, ast.Name) and idx.id in roles else by_text.get(U(idx))
-            try:
-                form = FormReader(prog, m, role_of).form(_resolve_keep(ff, s0, v.args[1], set(roles)))
-            except NotAForm as ex:
-                return False, None, str(ex), s0
-            return True, form, "loop over zip(row, col, data)", s0
-        if isinstance(st, ast.Assign) and len(st.targets) == 1 and isinstance(st.targets[0], ast.Attribute) and st.targets[0].attr == "data":
-            v = ff.resolved(st, st.value)
-            if (dotted(v.func) if isinstance(v, ast.Call) else "") in ("np.ldexp", "numpy.ldexp") and U(v.args[0]) == f"{mt}.data":
-                role_of = lambda idx: "row" if U(idx) == f"{mt}.row" else ("col" if U(idx) == f"{mt}.col" else None)
-                try:
-                    form = FormReader(prog, m, role_of).form(v.args[1])
-                except NotAForm as ex:
-                    return False, None, str(ex), st
-                return True, form, "vectorised ldexp on .data", st
-    return False, None, "no per-entry rescaling found", None
+                txt = U(env.get(el.id, el))
+                s_ = U(src)
+                if s_ == f"{mt}.row":
+                    roles_text[txt] = "row"
+                elif s_ == f"{mt}.col":
+                    roles_text[txt] = "col"
+                elif s_ == f"{mt}.data":
+                    entry_texts.add(txt)
+            if not any(U(src) in (f"{mt}.row", f"{mt}.col", f"{mt}.data") for src in zipc.args):
+                return False, None, "the loop does not run over the entries of the returned matrix", lp
+        elif isinstance(zipc, ast.Call) and dotted(zipc.func) == "range" and len(zipc.args) == 1 and isinstance(tgt, ast.Name):
+            idx_name = tgt.id
+            n_ = U(zipc.args[0])
+            if n_ not in (f"len({mt}.data)", f"{mt}.nnz", f"{mt}.data.size", f"__item__({mt}.data.shape, 0)", f"len({mt}.row)", f"len({mt}.col)", f"{mt}.data.shape[0]"):
+                return False, None, f"the index loop runs over `{n_[:60]}`, not over all stored entries", lp
+        else:
+            return False, None, "the loop over the entries is in an unrecognised form", lp
+        if idx_name != k:
+            return False, None, "the store does not target data[k] of the returned matrix at the loop's own position", st
+        if a not in entry_texts:
+            return False, None, f"entry value `{U(v)[:60]}` is not ldexp(entry, exponent)", st
+        role_of = lambda idx: roles_text.get(U(idx))
+        detail = "loop over the stored entries"
+    else:
+        return False, None, "the store into the data array is neither per entry nor whole-array", st
+    try:
+        form = FormReader(prog, m, role_of).form(E)
+    except NotAForm as ex:
+        return False, None, str(ex), st
+    return True, form, detail, st
 
 
 def _resolve_keep(ff, stmt, e: ast.AST, keep) -> ast.AST:
@@ -301,10 +323,10 @@ def slack_embedding(prog: Program, rep) -> None:
     off_ok = False
     for s in fc.order:
         st = s.stmt
-        if isinstance(st, ast.AugAssign) and isinstance(st.op, ast.Add) and U(st.value) == "self.cons_offsets" and ("isnot", "self.cons_offsets", "None") in s.facts:
+        if isinstance(st, ast.AugAssign) and isinstance(st.op, ast.Add) and U(fc.resolved(st, st.value)) == "self.cons_offsets" and ("isnot", "self.cons_offsets", "None") in s.facts:
             off_ok = True
-        if isinstance(st, ast.Assign) and isinstance(st.value, ast.BinOp) and isinstance(st.value.op, ast.Add) and "self.cons_offsets" in (U(st.value.left), U(st.value.right)) \
-                and ("isnot", "self.cons_offsets", "None") in s.facts:
+        if isinstance(st, ast.Assign) and isinstance(st.value, ast.BinOp) and isinstance(st.value.op, ast.Add) \
+                and "self.cons_offsets" in (U(fc.resolved(st, st.value.left)), U(fc.resolved(st, st.value.right))) and ("isnot", "self.cons_offsets", "None") in s.facts:
             off_ok = True
     rep.check(off_ok, "slack-cons", cn.qualname, "cons offsets", "the offsets are ADDED to c(x) (so that l <= c <= u with l == u becomes c - l == 0)", cn.loc())
     coeff = None
@@ -502,7 +524,13 @@ def _create_slacks_loop_form(prog, rep, cs, ff, loop_si) -> None:
     rep.check(ok, "slack-offsets", cs.qualname, short(latches[0].stmt) if latches else "has_offsets",
               "the 'some equality row has a non-zero right-hand side' flag is latched (only ever set to True inside the loop)", cs.loc(latches[0].stmt) if latches else cs.loc())
     fin = [s for s in ff.order if isinstance(s.stmt, ast.Assign) and any(U(t) == "self.cons_offsets" for t in s.stmt.targets)]
-    ok = any(U(s.stmt.value) == U(offs[0].stmt.targets[0].value) and any(f[0] == "truthy" and (any(n in f[1] for n in flag_names) or "True" in f[1]) for f in s.facts) for s in fin) if offs else False
+    arr_ = U(offs[0].stmt.targets[0].value) if offs else None
+    ok = any(U(s.stmt.value) == arr_ and any(f[0] == "truthy" and (any(n in f[1] for n in flag_names) or "True" in f[1]) for f in s.facts) for s in fin) if offs else False
+    # conditional-expression form: self.cons_offsets = cons_offsets if has_offsets else None
+    for s in fin:
+        v = s.stmt.value
+        if offs and isinstance(v, ast.IfExp) and isinstance(v.test, ast.Name) and v.test.id in flag_names and U(v.body) == arr_ and isinstance(v.orelse, ast.Constant) and v.orelse.value is None:
+            ok = True
     rep.check(ok, "slack-offsets", cs.qualname, "self.cons_offsets = cons_offsets", "the offsets are kept whenever the flag is set", cs.loc())
 
 
@@ -644,8 +672,8 @@ def _slack_start(prog, rep, ts, ft, ox) -> None:
     ok = False
     lp_ = s.loops[-1] if s.loops else None
     if isinstance(lp_, ast.For):
-        it = ft.resolved(lp_, lp_.iter) if False else lp_.iter
-        if isinstance(it, ast.Call) and dotted(it.func) == "enumerate" and U(it.args[0]) == "self.slack_positions" and isinstance(lp_.target, ast.Tuple) and isinstance(tgt, ast.Subscript):
+        it = lp_.iter
+        if isinstance(it, ast.Call) and dotted(it.func) == "enumerate" and it.args and U(ft.resolved(lp_, it.args[0])) == "self.slack_positions" and isinstance(lp_.target, ast.Tuple) and isinstance(tgt, ast.Subscript):
             i_, pos_ = U(lp_.target.elts[0]), U(lp_.target.elts[1])
             v = _resolve_keep(ft, st, st.value, {i_, pos_})
             ptxt = U(ft.at(st).env.get(pos_, ast.Name(id=pos_)))
